@@ -1,6 +1,6 @@
 (* Unit C01_expr: the expression layer of C01.  Statements only; proofs are in Proofs/ToCP.v. *)
 From Coq Require Import ZArith QArith List Bool.
-From RV Require Import Base.Wire Base.Text Lang.PyAst Lang.PySem Lang.CAst Lang.CSem Lang.ToC Gen.OpTables Proofs.ToCP.
+From RV Require Import Base.Wire Base.Text Lang.PyAst Lang.PySem Lang.CAst Lang.CSem Lang.ToC Gen.OpTables Proofs.ToCP Proofs.ToCPres.
 Import ListNotations.
 Open Scope Z_scope.
 
@@ -122,3 +122,18 @@ Theorem C01_serial_text_refuted :
 Proof. exact serial_text_refuted. Qed.
 Print Assumptions C01_serial_text_refuted.
 
+(* value preservation of the expression translation, for every expression of the fragment, every
+   environment and every scripted input: inside expr_guard the emitted C++ expression is well typed,
+   evaluates without consuming readings, and yields the value Python computes *)
+Theorem C01_expr_preserve_partial : forall G rho s ins e c v,
+  env_rel G rho s -> call_free e = true ->
+  to_c G e = TOk c -> expr_guard G rho e = true -> peval rho e = Ok v ->
+  exists w, crun (tc_types G) s c ins = COk (w, ins) /\ vrel v w.
+Proof. exact expr_preserve_partial. Qed.
+Print Assumptions C01_expr_preserve_partial.
+
+Example C01_expr_nonvacuous :
+  env_rel demo_G demo_rho demo_s /\ call_free demo_e = true /\ expr_guard demo_G demo_rho demo_e = true /\
+  peval demo_rho demo_e = Ok (VBool false) /\ exists c, to_c demo_G demo_e = TOk c.
+Proof. exact demo_nonvacuous. Qed.
+Print Assumptions C01_expr_nonvacuous.
